@@ -943,4 +943,21 @@ theorem natv_sound_terminates (perm : Perm) (h : Heap) (v : Val) (path : List Na
       simpa using hc
     exact natv_sound_no_fuel perm h h.length v _ path hs (by omega)
 
+/-! ### the C14 witness `a = [1, a]` -/
+
+/-- the witness `a = [1, a]` (C14) -/
+def cyc : Heap := [.arr [.int 1, .ref 0]]
+
+theorem det_cyc (path : List Nat) : detect .asShipped Perm.id path cyc (.ref 0) = false := by
+  unfold detect; simp [detShipped, cyc, MAX_STRUCT_DEPTH]
+
+theorem det_cyc_int (path : List Nat) (z : Int) : detect .asShipped Perm.id path cyc (.int z) = false := by
+  unfold detect; simp [detShipped]
+
+theorem natv_cyc_int (f : Nat) (path : List Nat) : natv .asShipped Perm.id cyc (f+1) path (.int 1) = .ok (natLeaf (.int 1)) := by
+  unfold natv
+  rw [det_cyc_int]
+  rfl
+
+
 end OntVerif.Proofs.NeoExec
